@@ -4,6 +4,7 @@
 -/
 import FileD.Lemmas.Core
 import FileD.Lemmas.Sys
+import FileD.Lemmas.CoreKids
 import FileD.Spec.C01
 namespace FileD.PropsC01
 open FileD.Core
@@ -102,6 +103,35 @@ example : ((run (init false) demoOps).map (·.commits)) = some [⟨0, 1, 10⟩, 
 
 /-- the model refuses to commit batch 1 before batch 0 (commitBatch's sequence wait) -/
 example : run (init false) (demoOps.take 13 ++ [.bcommit false 1]) = none := by decide
+
+
+/-! ### split parents and their children -/
+
+/-- **a split parent is committed only after its children were sent**: for every interleaving
+    (no dead queue), when the input is told that a parent event `e` (processor.Spawn made it
+    child-parent; Batch.ForEach skips it) is committed, every child of `e` that was handed to the
+    output sits in a batch whose send returned nil or that was given up through the error
+    callback. Children reach the batcher before their parent and batches are committed in
+    sealing order, each only after its own send. -/
+theorem parent_commit_after_children (ops : List Op) (s : State) (hr : run (init false) ops = some s) :
+    ∀ e ∈ s.commits, ∀ k, (e, k) ∈ s.kidsAdded → (e, k) ∈ s.kidsDone := by
+  obtain ⟨cinv, kinv⟩ := ckinv_run cinv_init kinv_init hr
+  intro e he k hk
+  have hdone : e ∈ s.main.done := by rw [← cinv.loop]; exact List.mem_append_left _ he
+  have := kinv.before [] (shape s.main.full) (by simp) e (by simpa using hdone) k hk
+  exact kinv.loopOK _ (by simpa using this)
+
+/-- non-vacuity: parent 10 with two children; the children's batch is sent, the parent's batch
+    has nothing iterable and is committed without a send -/
+example : ((run (init false)
+    [.accept ⟨0, 1, 10⟩, .spawn ⟨0, 1, 10⟩ 0, .addKid ⟨0, 1, 10⟩ 0, .spawn ⟨0, 1, 10⟩ 1, .addKid ⟨0, 1, 10⟩ 1,
+     .sealB false 0, .add false ⟨0, 1, 10⟩, .sealB false 1, .sendOk false 0 [], .bcommit false 0, .bcommit false 1,
+     .commit ⟨0, 1, 10⟩]).map (fun s => (s.commits, s.kidsDone))) =
+    some ([⟨0, 1, 10⟩], [(⟨0, 1, 10⟩, 0), (⟨0, 1, 10⟩, 1)]) := by decide
+
+/-- the model refuses to commit the children's batch before its send returned -/
+example : run (init false)
+    [.accept ⟨0, 1, 10⟩, .spawn ⟨0, 1, 10⟩ 0, .addKid ⟨0, 1, 10⟩ 0, .sealB false 0, .bcommit false 0] = none := by decide
 
 /-! ### dead queue: the full statement is false of the unchanged code -/
 
